@@ -8,7 +8,7 @@
 (*  Agreement signer verifier                   same index sets            *)
 (*  Probe     abs_err_e12 side x_milli          decision threshold found   *)
 (*            by bisection vs 1-(1-phi_f)^w (harness f64 arithmetic:       *)
-(*            smaller-trust sub-result), tolerance 1e-9 absolute           *)
+(*            smaller-trust sub-result), tolerance 2e-13 absolute           *)
 (***************************************************************************)
 EXTENDS Rat, Sequences, TLC, Json, IOUtils
 
@@ -44,7 +44,9 @@ TZeroStake == IsEvent("ZeroStake") /\ E.won = FALSE
 TPhiOne    == IsEvent("PhiOne") /\ E.won = TRUE
 TMonoPair  == IsEvent("MonoPair") /\ ((E.d_draw_le0 /\ E.d_stake_ge0 /\ E.won1 = TRUE) => E.won2 = TRUE)
 TAgreement == IsEvent("Agreement") /\ E.signer = E.verifier
-ProbeOk(e) == e.abs_err_e12 <= 1000
+\* 2e-13 absolute: the decision is exact for x <= 2.65 (rigorous error bound), the harness oracle is f64
+\* arithmetic on a probability (absolute error of a few 1e-16), the bisection resolves 2^-128
+ProbeOk(e) == e.abs_err_e15 <= 200
 TProbe     == IsEvent("Probe") /\ (ProbeOk(E) \/ KnownFor(E))
 
 TraceNext == TTaylor \/ TZeroStake \/ TPhiOne \/ TMonoPair \/ TAgreement \/ TProbe
